@@ -271,8 +271,11 @@ where
     // Distance of each node to itself is the default value
     for node in graph.node_identifiers() {
         let index = graph.to_index(node);
-        set_object(m_dist, index, index, K::default());
-        set_object(m_prev, index, index, Some(index));
+        // a negative self-loop is a negative cycle: keep it so that it is reported
+        if is_greater(m_dist, index, index, K::default()) {
+            set_object(m_dist, index, index, K::default());
+            set_object(m_prev, index, index, Some(index));
+        }
     }
 
     // Perform the Floyd-Warshall algorithm
